@@ -11,6 +11,7 @@ import FoxModel.Driver.Parked
 import FoxModel.Driver.Mw
 import FoxModel.Driver.Opts
 import FoxModel.Driver.Ctx
+import FoxModel.Driver.Parse
 /-
   foxmodel — line-protocol driver: one case per input line (tab separated, first field = stream name),
   one output line per case. Core Lean only (links without Mathlib).
@@ -35,6 +36,8 @@ def dispatch (line : String) : String :=
   | some "mw" => Driver.Mw.handle fields
   | some "opts" => Driver.Opts.handle fields
   | some "ctx" => Driver.Ctx.handle fields
+  | some "parse" => Driver.Parse.handle fields
+  | some "routable" => Driver.Parse.handle fields
   | some "hist" => Driver.Ops.handle (fields.take 2)
   | _ => "M=unknown-stream"
 
